@@ -1,6 +1,7 @@
 (* Executable comparisons used by the C18 correspondence for Model/CalTrackFit.v (harness/c18.py). *)
 From Coq Require Import ZArith QArith List Bool String PrimFloat.
-From V Require Import Model.CasesLib Generated.CalTrackTables Model.CalTrack Model.CalTrackRun Model.CalTrackFit.
+From V Require Import Model.CasesLib Generated.CalTrackTables Model.CalTrack Model.CalTrackRun Model.CalTrackFit
+  Model.CalTrackPredict Model.CalTrackPredictRun.
 Import ListNotations.
 
 (* _fit_temperature_bins(temps, candidates, min_count): (non-null temperatures, candidates as given, min count, returned list) *)
@@ -32,7 +33,9 @@ Inductive c18case2 : Type :=
 | Old (c : c18case)
 | CFitBins (c : list Q * list Q * Z * list Q)
 | CFitApi (c : string * list (Z * bool * Q) * list (string * list bool * list bool))
-| COccRule (c : bool * option float * list (Z * bool) * list (option bool)).
+| COccRule (c : bool * option float * list (Z * bool) * list (option bool))
+| CPredictValue (c : frames_t * list (string * option (list (Z * Q) * list (option Q) * list (option Q))) * list Z * string
+                      * list (Z * Z * option Q * option Q)).
 
 Definition check_any2 (c : c18case2) : bool :=
   match c with
@@ -40,4 +43,5 @@ Definition check_any2 (c : c18case2) : bool :=
   | CFitBins x => check_fit_bins x
   | CFitApi x => check_fit_api x
   | COccRule x => check_occupancy_rule x
+  | CPredictValue x => check_predict_value x
   end.
